@@ -258,6 +258,51 @@ func w3() uint64 {
 	return twice(v, 1) + measure(v)
 }
 """
+        # ---- logging calls where an EXPRESSION is needed (goose prints a logging call as a comment)
+        lsrc = """package p
+
+import "log"
+
+func w0() uint64 {
+	var acc uint64 = 0
+	for i := uint64(0); i < 3; log.Println("tick") {
+		acc = acc + 1
+		i = i + 1
+	}
+	return acc
+}
+
+func w1() uint64 {
+	var acc uint64 = 5
+	if acc > 2 {
+		log.Printf("big %d", acc)
+	} else {
+		log.Println("small")
+	}
+	for _, x := range make([]uint64, 2) {
+		acc = acc + x + 1
+		log.Println(x)
+	}
+	return acc
+}
+
+func w2() uint64 {
+	for {
+		log.Println("once")
+		break
+	}
+	return 4
+}
+"""
+        open(os.path.join(scratch, "logpos.go"), "w").write(lsrc)
+        lfiles, lcalls = c01.witness_package(os.path.join(scratch, "logpos.go"))
+        lr = k4.run_package(lfiles, lcalls, os.path.join(scratch, "l"))
+        stats["logging_position_functions"] = len(lcalls)
+        if lr["parse_error"]:
+            viol("C05: a logging call where an expression is needed — the emitted file cannot be read back", {"proto": "c05-log", "package": lsrc}, "well-formed", lr["parse_error"])
+        for mm in lr["mismatches"]:
+            viol("C05: a logging call where an expression is needed changes what the definition computes",
+                 {"proto": "c05-log", "package": lsrc, "function": mm["fn"], "emitted": k4.emitted_def(lr["text"], mm["fn"])}, {"go": mm["go"]}, {"gooselang": mm["gl"]})
         open(os.path.join(scratch, "iface.go"), "w").write(isrc)
         ifiles, icalls = c01.witness_package(os.path.join(scratch, "iface.go"))
         ir = k4.run_package(ifiles, icalls, os.path.join(scratch, "i"))
